@@ -12,7 +12,8 @@ RULE = ("netlist ASTs generated from the subset grammar: every binary/unary oper
         "/ omitted pins; rendered plain, with shuffled statement order (use before definition), and with fuzzed "
         "whitespace + comments; names from plain and parser-synthetic-looking universes (not_a, and_a_b, tie_0); "
         "port-list/declaration mismatches must be rejected; every valuation of inputs and blackbox outputs is "
-        "compared net by net; non-trivial = netlist has >=2 items")
+        "compared net by net; non-trivial = netlist has >=2 items"
+        "; plus: operand lists with 3-5 repeats, nets named tie_hi/tie_lo/tie_a, an earlier netlist parsed by the same process before the one under test, blackbox types whose pins and names (BUF, Nand) vary between netlists")
 BOUND = "<= 4 inputs, <= 7 items, expression depth <= 3, <= 2 blackbox instances (<= 9 free signals); 4/16 hash seeds"
 
 OPS2 = ["and", "or", "xor", "xnor"]
